@@ -161,3 +161,61 @@ func RTClean(proto byte, t *Ty, gt *GT, v *Val) bool {
 	}
 	return true
 }
+
+// RTCleanAny extends RTClean to lists / sets (bound as slices or arrays) and maps with clean leaves, nested to
+// any depth (tuples and UDTs are compared model-vs-code only): the property's oracle `rtsame` does not depend on
+// the model, so it is applied there too; the theorems cover the scalar leaves (see props/C02.json `partial`).
+func RTCleanAny(proto byte, t *Ty, gt *GT, v *Val) bool {
+	if gt == nil {
+		return false
+	}
+	if gt.Name == "ptr" {
+		switch v.Tag {
+		case "nilptr":
+			return true
+		case "ptr":
+			if marshalsNil(v.Elems[0]) {
+				return false
+			}
+			return RTCleanAny(proto, t, gt.Elems[0], v.Elems[0])
+		}
+		return false
+	}
+	switch t.Name {
+	case "list", "set":
+		if gt.Name != "slice" && gt.Name != "array" {
+			return false
+		}
+		if v.Tag == "slnil" {
+			return true
+		}
+		if (v.Tag != "sl" && v.Tag != "arr") || Excluded(proto, t, v) {
+			return false
+		}
+		for _, e := range v.Elems {
+			if !RTCleanAny(proto, t.Elems[0], gt.Elems[0], e) {
+				return false
+			}
+		}
+		return true
+	case "map":
+		if gt.Name != "map" {
+			return false
+		}
+		if v.Tag == "mapnil" {
+			return true
+		}
+		if v.Tag != "map" || Excluded(proto, t, v) {
+			return false
+		}
+		for i := 0; i+1 < len(v.Elems); i += 2 {
+			if !RTCleanAny(proto, t.Elems[0], gt.Elems[0], v.Elems[i]) || !RTCleanAny(proto, t.Elems[1], gt.Elems[1], v.Elems[i+1]) {
+				return false
+			}
+		}
+		return true
+	case "tuple", "udt":
+		return false
+	}
+	return RTClean(proto, t, gt, v)
+}
